@@ -12,7 +12,10 @@ an argument is then explicit:
 * `Modulator.setConstellation(buf)` executes `self.symbols = symbols`: the object KEEPS THE
   CALLER'S ARRAY (`arg b`), so a later refill of that array reaches the object.  This is the
   code that exists (finding `C01:setConstellation-keeps-argument`); the classes the property
-  lists (BPSK, QPSK, PSK, QAM) only ever install tables they created.
+  lists (BPSK, QPSK, PSK, QAM) only ever install tables they created.  `setConstellationCopy`
+  is the proposed repair (`self.symbols = np.array(symbols)`); the harness uses it in place of
+  `setConstellation` when — and only when — the real method is observed not to keep the array,
+  so that repairing the library does not break the tie.
 
 Core Lean only; polymorphic in the scalar like `Model/C01.lean`.
 -/
@@ -39,6 +42,7 @@ inductive AOp (α : Type)
   | fillI (b : Nat) (v : List Nat)       -- caller: refill index array `b` in place
   | install (t : List (α × α))           -- constructor / `setPhaseOffset`: a table made by the object
   | setConstellation (b : Nat)           -- `self.symbols = symbols` with the caller's array `b`
+  | setConstellationCopy (b : Nat)       -- the repair `self.symbols = np.array(symbols)` (not the code that exists)
   | demodulate (b : Nat)                 -- `demodulate(array b)`
   | modulate (b : Nat)                   -- `modulate(index array b)`
 
@@ -61,6 +65,7 @@ def aStep (s : AState α) : AOp α → AState α × AOut α
   | .fillI b v => ({ s with ibuf := upd s.ibuf b v }, .none)
   | .install t => ({ s with table := .own t }, .none)
   | .setConstellation b => ({ s with table := .arg b }, .none)
+  | .setConstellationCopy b => ({ s with table := .own (s.cbuf b) }, .none)
   | .demodulate b => (s, .indexes ((s.cbuf b).map (demod s.resolve)))
   | .modulate b => (s, .symbols ((s.ibuf b).mapM (modulate s.resolve)))
 
@@ -78,6 +83,7 @@ def aOutputs (s : AState α) : List (AOp α) → List (AOut α)
 def AOp.keepsTable : AOp α → Bool
   | .install _ => false
   | .setConstellation _ => false
+  | .setConstellationCopy _ => false
   | _ => true
 end
 
